@@ -125,7 +125,21 @@ fn rounds_for<const Z: usize, const G: usize, const E: usize, const R: usize, co
         let big = round % 3 == 2;
         let n = rng.random_range(1..if big { 12 } else { 40 });
         // multiset with multiplicities; large values only a few times so that totals stay below 2^64
-        let vals: Vec<(u64, u64)> = (0..n).map(|_| (rand_val(rng, big), if rng.random_bool(0.3) { rng.random_range(1..if big { 4 } else { 1000 }) } else { 1 })).collect();
+        // one round in four: geometrically distributed values whose best Golomb modulus is about `bt'
+        // (so that every tracked Golomb code, powers of two included, is the best one for some round)
+        let geo = round % 4 == 1;
+        let bt = rng.random_range(1..=G.max(1)) as f64;
+        let q = 1.0 - (std::f64::consts::LN_2 / bt).min(0.9);
+        let mut draw = |rng: &mut SmallRng| -> u64 {
+            if geo {
+                let u: f64 = rng.random_range(1e-9..1.0);
+                (u.ln() / q.ln()).floor() as u64
+            } else {
+                rand_val(rng, big)
+            }
+        };
+        let n = if geo { rng.random_range(20..60) } else { n };
+        let vals: Vec<(u64, u64)> = (0..n).map(|_| (draw(rng), if rng.random_bool(0.3) { rng.random_range(1..if big { 4 } else { 1000 }) } else { 1 })).collect();
         // (a) one by one / with multiplicities into one object
         let whole_id = tr.new_id();
         new_ev::<Z, G, E, R, P>(tr, whole_id);
@@ -231,6 +245,9 @@ pub fn run(tr: &mut Tr, seed: u64, rounds: usize, threads_rounds: usize) -> (u64
     tests += rounds_for::<10, 20, 10, 10, 10>(tr, &mut rng, rounds);
     tests += rounds_for::<3, 5, 4, 8, 2>(tr, &mut rng, rounds / 2 + 1);
     tests += rounds_for::<12, 1, 9, 2, 11>(tr, &mut rng, rounds / 2 + 1);
+    // many Golomb codes, few of anything else: Golomb codes with no tracked twin win
+    tests += rounds_for::<2, 20, 2, 2, 2>(tr, &mut rng, rounds / 2 + 1);
+    tests += rounds_for::<1, 33, 1, 1, 1>(tr, &mut rng, rounds / 2 + 1);
     // (d) threads sharing one wrapper
     for round in 0..threads_rounds {
         tr.reset();
